@@ -138,7 +138,8 @@ def gen_valid_doc(rnd):
     sts = []
     for _ in range(rnd.randrange(1, 4)):
         acts = [rnd.choice(ACTIONS + ACTION_PATTERNS[:8]) for _ in range(rnd.randrange(1, 3))]
-        ress = ["arn:aws:s3:::" + BUCKET + rnd.choice(["", "/*", "/pub/*", "/*secret", "/a?c", "/a*b*c", "*", "/**", "/*/x", "/pub/*/", "/dir/", "/", "/a*/"])
+        ress = ["arn:aws:s3:::" + BUCKET + rnd.choice(["", "/*", "/pub/*", "/*secret", "/a?c", "/a*b*c", "*", "/**", "/*/x", "/pub/*/", "/dir/", "/", "/a*/",
+                                                            "/*secret*", "/*a*b*c*", "/*.log*", "/***", "/*x*", "/p*u*b*/*a*"])
                 for _ in range(rnd.randrange(1, 3))]
         ress += ["arn:aws:s3:::" + BUCKET, "arn:aws:s3:::" + BUCKET + "/*"] if rnd.random() < 0.5 else []
         pr = rnd.choice([t_str("*"), t_str("u1"), t_arr([t_str("u1"), t_str("u2")]), t_obj([("AWS", t_str("u2"))])])
@@ -283,7 +284,7 @@ def run(chk):
     # ---- evaluation
     ecases = []
     objects = ["", "x", "pub/a", "priv/o1", "*xsecret", "topsecret", "abc", "a/x", "a*b", "aXbYc", "db..secret", "?", "secret",
-               "dir/", "dir", "pub/a/", "pub/a/secret.txt", "a/", "/"]
+               "dir/", "dir", "pub/a/", "pub/a/secret.txt", "a/", "/", ".log", "app.log", "secrets"]
     evdocs = [d for d, o in zip(docs, vobs) if o == "OK"][:400]
     while len(evdocs) < 200:
         evdocs.append(gen_valid_doc(rnd))
